@@ -443,14 +443,13 @@ class Check(PropertyCheck):
                 params[self.rng.randrange(1, len(params))][0] = params[0][0]       # duplicate name
                 c = make_case(params, self.rng.choice(RET_ANNOTS), stream='malformed')
             elif r < 0.5:
-                # implementation first, overloads after it; or two implementations
+                # definitions of one name in every order: overloads after the implementation, two
+                # implementations, overload / implementation / overload ...
                 c = make_case(params, None, stream='malformed')
-                extra = render_def('f', random_params(self.rng, 0, 3), None, False, ('overload',) if self.rng.random() < 0.7 else ())
-                c['src'] += extra
-                if self.rng.random() < 0.5:
-                    c['src'] += render_def('f', random_params(self.rng, 0, 3), 'int', False, ('overload',))
-                if self.rng.random() < 0.5:
-                    c['src'] += render_def('f', random_params(self.rng, 0, 3), 'int', False, ())
+                c['src'] = HEADER
+                for _k in range(self.rng.randint(2, 4)):
+                    c['src'] += render_def('f', random_params(self.rng, 0, 3), self.rng.choice([None, 'int']),
+                                           False, ('overload',) if self.rng.random() < 0.6 else ())
                 c['layout'] = None
             else:
                 c = make_case(params, self.rng.choice(RET_ANNOTS + BAD_ANNOTS), self.rng.choice(CTXS), stream='malformed')
@@ -842,4 +841,18 @@ class Check(PropertyCheck):
         print('displayed by pydoctor for %s: %s' % (case['q'], o.get('shown', o)))
         print('reports:', o.get('reports'))
         print('property:', msg or 'holds on this input (displayed definitions read back as the written ones)')
-        return 1 if msg else 0
+        rc = 1 if msg else 0
+        if data.get('kind') == 'correspondence':
+            b, out = lib.build_model(self.id + '_sig', self.models['sig'])
+            mi = model_input(case)
+            if b is not None and mi is not None:
+                self.binaries['sig'] = b
+                v = self.compare(case, o, self.model('sig', [enc(mi)])[0])
+                if v is not None:
+                    print('model/implementation:', v.what)
+                    print('  Model.Sig :', json.dumps(v.expected)[:1500])
+                    print('  pydoctor  :', json.dumps(v.observed)[:1500])
+                    rc = 1
+                else:
+                    print('model/implementation: agree on this input')
+        return rc
